@@ -357,3 +357,46 @@ func isReleaseHelper(g *ssa.Function) bool {
 	})
 	return clunk && remove && clears
 }
+
+// onlyForwardedErrors: fn refuses its input only because one of its steps failed: every non-nil error it returns is
+// (derived from) the error of a call it made. A refusal of its own making (`if n < K { return fmt.Errorf(…) }`) narrows
+// what the function accepts below what its steps accept.
+func onlyForwardedErrors(r *Run, fn *ssa.Function, rule, what string) int {
+	var errs []ssa.Value
+	eachInstr(fn, func(in ssa.Instruction) {
+		if c, ok := in.(*ssa.Call); ok {
+			if e := errResult(c); e != nil {
+				if g := staticCallee(&c.Call); g != nil && (fnName(g) == "fmt.Errorf" || fnName(g) == "errors.New") {
+					return
+				}
+				errs = append(errs, e)
+			}
+		}
+	})
+	n := 0
+	for _, ret := range returnsOf(fn) {
+		if len(ret.Results) == 0 {
+			continue
+		}
+		ev := ret.Results[len(ret.Results)-1]
+		if !isErrorType(ev.Type()) || isNilConst(ev) {
+			continue
+		}
+		n++
+		ok := false
+		for _, alt := range phiAlternatives(ev, 3) {
+			ok = false
+			for _, e := range errs {
+				if derivesFrom(alt, e, 4) {
+					ok = true
+				}
+			}
+			if !ok {
+				break
+			}
+		}
+		r.Check(ok, rule, fnName(fn)+": an error is returned only when a step failed", ret.Pos(),
+			what+": the function refuses input with an error of its own making, not because a read or decode step failed")
+	}
+	return n
+}
